@@ -222,6 +222,11 @@ func (c18) Exec(seed int64, i int, tier string) Record {
 	if i%25 == 13 {
 		return c18JointCase(r)
 	}
+	if i%20 == 6 {
+		// class literal-blanks-history (b16_probes.go): Parses without a Config of filters whose regex / string literals
+		// differ only in blanks INSIDE the literal, spelled with different blanks outside
+		return b16LiteralBlanks(r)
+	}
 	o := DefaultOpts()
 	o.OddKeys = r.Chance(50)
 	o.ErrBias = 10
